@@ -16,7 +16,7 @@ COEFS = [0.5, 0.25, 1.0, 0.75, 0.125, 2.0]
 SPACE = [
     ("centers", ["2", "1", "3", "3+ghost", "3+ecp", "6"]),
     ("shellset", ["+d-cart", "sp", "+d-pure", "+f-cart", "+f-pure", "+g-cart", "+g-pure", "+h-cart", "+h-pure", "d-cart+d-pure", "empty-center", "pure-g+cart-h", "cart-d+pure-f"]),
-    ("contraction", ["segmented", "SP", "gen-ss", "gen-pd", "3-primitives"]),
+    ("contraction", ["segmented", "SP", "gen-ss", "gen-pd", "3-primitives", "gen-ps"]),
     ("shell_order", ["grouped", "reversed", "interleaved", "rotated", "perm2", "perm3", "skip-first-center"]),
     ("conventions", ["own", "fchk", "molden", "wfn", "mwfn", "horton2", "cca", "orca", "scr1", "scr2"]),
     ("mo", ["restricted", "rohf", "rohf-triplet", "beta-hole", "fractional", "aminusb", "aminusb-neg", "aminusb-zero", "aminusb-balanced", "unrestricted", "unrestricted-na>nb", "unrestricted-fractional-beta", "occupied-only", "irreps", "unrestricted-occupied-only"]),
@@ -70,6 +70,9 @@ def shell_list(case, ncenter, seed):
     if con == "SP":
         # replace s@0 and p@0 by one SP shell
         out = [[0, [0, 1], ["c", "c"], 2]] + out[2:]
+    elif con == "gen-ps":
+        # the same two contractions as an SP shell, listed P first: a generalized contraction, not an SP shell
+        out = [[0, [1, 0], ["c", "c"], 2]] + out[2:]
     elif con == "gen-ss":
         out[0] = [0, [0, 0], ["c", "c"], 2]
     elif con == "gen-pd":
